@@ -193,3 +193,28 @@ pub fn random_spec(rng: &mut Rng, cols: u32, lines: u32) -> Spec {
 }
 #[allow(dead_code)]
 pub fn unused() { let _ = (DECAWM, DECCOLM, DECSCNM, DECTCEM, fork); }
+
+/// One token of the recogniser's grammar: mostly well-formed, sometimes aborted / skipped / truncated.
+pub fn gen_token(rng: &mut Rng) -> String {
+    let num = |r: &mut Rng| -> String { match r.below(8) { 0 => String::new(), 1 => "0".into(), 2 => "00005".into(), 3 => format!("{}", r.below(10000)), 4 => "99999999999999999999999".into(), _ => format!("{}", r.below(30)) } };
+    let params = |r: &mut Rng| -> String { let n = r.below(4); let mut t = String::new(); for i in 0..n { if i > 0 { t.push(';'); } t.push_str(&num(r)); } if r.chance(1, 8) { t.push(';'); } t };
+    let intro = |r: &mut Rng| -> &'static str { if r.chance(3, 4) { "\u{1b}[" } else { "\u{9b}" } };
+    let finals = ['@', 'A', 'B', 'C', 'D', 'E', 'F', 'G', 'H', 'J', 'K', 'L', 'M', 'P', 'X', 'a', 'c', 'd', 'e', 'f', 'g', 'h', 'l', 'm', 'r', 'h', 'l', 'm', 'H', 'z', 'p', 'q', 'n'];
+    match rng.below(18) {
+        0..=2 => { let n = 1 + rng.below(3); (0..n).map(|_| *rng.pick(&['a', 'Z', '~', ' ', '\u{e9}', '\u{3042}', '\u{301}', '0', ';', '[', ']'])).collect() }
+        3 => rng.pick(&["\u{7}", "\u{8}", "\t", "\n", "\u{b}", "\u{c}", "\r", "\u{e}", "\u{f}", "\r\n"]).to_string(),
+        4 => format!("\u{1b}{}", rng.pick(&['c', 'D', 'E', 'M', 'H', '7', '8', '=', '>', 'Z', '\\', 'x', '\r', '\u{7}'])),
+        5 => format!("\u{1b}#{}", rng.pick(&['8', '3', 'x', '\n'])),
+        6 => format!("\u{1b}%{}", rng.pick(&['G', '@', '8', '\r'])),
+        7 => format!("\u{1b}{}{}", rng.pick(&['(', ')']), rng.pick(&['0', 'B', 'U', 'V', 'A', 'x', '\n'])),
+        8..=11 => { let q = if rng.chance(1, 3) { "?" } else { "" }; let mid = if rng.chance(1, 6) { *rng.pick(&["\u{8}", "\n", " ", ">", "\r", "\u{7}"]) } else { "" };
+            format!("{}{}{}{}{}", intro(rng), q, params(rng), mid, rng.pick(&finals)) }
+        12 => { let q = if rng.chance(1, 2) { "?" } else { "" }; format!("{}{}{}{}", intro(rng), q, params(rng), rng.pick(&['\u{18}', '\u{1a}'])) }
+        13 => { let q = if rng.chance(1, 2) { "?" } else { "" }; format!("{}{}{}${}", intro(rng), q, params(rng), rng.pick(&['p', 'x', 'm', 'h', '\r'])) }
+        14 | 15 => { let pl: String = (0..rng.below(5)).map(|_| *rng.pick(&["a", ";", "\\", " ", "\u{e9}", "\u{3042}", "\u{1b}x", "\r\n", "\n", "0"])).collect();
+            format!("{}{}{}{}{}", rng.pick(&["\u{1b}]", "\u{9d}"]), rng.pick(&["0", "1", "2", "4", "R", "P1234567", "l"]), rng.pick(&[";", ";", ""]), pl, rng.pick(&["\u{7}", "\u{9c}", "\u{1b}\\"])) }
+        16 => rng.pick(&["\u{1b}", "\u{1b}[", "\u{1b}[1;", "\u{1b}[?", "\u{1b}]0;ab", "\u{1b}(", "\u{1b}#", "\u{9b}12", "\u{1b}]"]).to_string(),
+        _ => { let (m, p) = gen_modes(rng); format!("{}{}{}{}", intro(rng), if p { "?" } else { "" }, m.iter().map(|x| x.to_string()).collect::<Vec<_>>().join(";"), if rng.chance(1, 2) { 'h' } else { 'l' }) }
+    }
+}
+pub fn gen_token_stream(rng: &mut Rng, n: usize) -> String { let mut s = String::new(); for _ in 0..n { s.push_str(&gen_token(rng)); } s }
